@@ -50,19 +50,13 @@ def build_unit(name):
 
 
 def canary_text(unit):
-    """Same unit with `ensures false` added to every real function: each must now fail."""
-    saved = []
-    for f in unit.fns:
-        saved.append(list(f.ensures))
-        f.ensures = list(f.ensures) + [("CANARY", "false")]
-    text, lmap = unit.render()
-    for f, s in zip(unit.fns, saved):
-        f.ensures = s
-    return text, lmap
+    """The unit plus, for every real function, a copy `<name>__canary` that additionally ensures false.
+    Callers keep calling the originals, so every copy must fail by itself."""
+    return unit.render(canary=True)
 
 
-def run_verus(path, rlimit=None, extra=()):
-    cmd = [VERUS, path, "--triggers-mode", "silent", "--multiple-errors", "50", "--output-json", "--time"]
+def run_verus(path, rlimit=None, extra=(), multiple_errors=50):
+    cmd = [VERUS, path, "--triggers-mode", "silent", "--multiple-errors", str(multiple_errors), "--output-json", "--time"]
     if rlimit:
         cmd += ["--rlimit", str(rlimit)]
     cmd += list(extra) + ["--", "--error-format=json"]
@@ -210,7 +204,7 @@ def run_unit(name, canary=True, rlimit=None):
         json.dump(lmap, f)
     with cf.ThreadPoolExecutor(max_workers=2) as ex:
         fut = ex.submit(run_verus, path, rlimit)
-        cfut = ex.submit(run_verus, cpath, rlimit) if canary else None
+        cfut = ex.submit(run_verus, cpath, rlimit, (), 0) if canary else None
         out = fut.result()
         cout = cfut.result() if cfut else None
     res["verus_cmd"] = out["cmd"]
@@ -252,16 +246,17 @@ def run_unit(name, canary=True, rlimit=None):
     # canary
     if cout is not None:
         cfail, chard = classify(cout["diags"], clmap)
-        failed_fns = {f["fn"] for f in cfail if f.get("label") == "CANARY"}
-        # a function whose canary did not fail individually may have failed an earlier obligation; accept any failure in it
-        failed_any = {f["fn"] for f in cfail}
+        failed_any = {f["fn"] for f in cfail if f.get("fn")}
         allf = [f.qual() for f in unit.fns]
-        vacuous = [q for q in allf if q not in failed_fns and q not in failed_any]
-        res["canary"] = {"functions": len(allf), "failed_as_expected": len([q for q in allf if q in failed_fns or q in failed_any]),
+        vacuous = [q for q in allf if (q + "#canary") not in failed_any]
+        res["canary"] = {"functions": len(allf), "failed_as_expected": len(allf) - len(vacuous),
                          "vacuous": vacuous, "wall": cout["wall"]}
         if chard and not hard:
             res["canary"]["note"] = "canary run had non-verification errors: " + chard[0]["msg"]
-        if vacuous and res["status"] == "ok":
+            if res["status"] == "ok":
+                res["status"] = "undecided"
+                res["undecided_reason"] = "canary run rejected: " + chard[0]["msg"]
+        elif vacuous and res["status"] == "ok":
             res["status"] = "undecided"
             res["undecided_reason"] = "vacuity canary: `ensures false` verified for %s" % ", ".join(vacuous)
     res["wall"] = time.time() - t0
